@@ -236,7 +236,8 @@ def c04(m, h, i, s):
         equity = pre["margin"] + rpnl - f
         toll, spread = fees_for(s.pre, v, pre["notional"])
         delta = bal(s.obs, snd) - bal(s.pre, snd)
-        expect = equity - (0 if native else toll + spread)
+        # cw20: the fees are pulled from the trader's wallet; native: whatever the caller attached is kept
+        expect = equity - (int(s.toks[2]) if native else toll + spread)
         m.stats["checked"] += 1
         m.hit("close-long" if pre["size"] > 0 else "close-short", h, i)
         if f != 0:
